@@ -32,7 +32,8 @@ def run(rep):
     rep.rule = ("S->I: every scenario (statement shapes over <= 4 references in 1-2 files x schedules "
                 "[reference -> 0..2 postponements]; lists in which several references name the same target: every "
                 "partition of <= 4 references; object structures: one object with two reference lists [and a single "
-                "reference], a parent and its first child starting at the same input position with same-named lists) "
+                "reference], a parent and its first child starting at the same input position with same-named lists; "
+                "references that end in the metamodel's builtins after the provider's None answer) "
                 "enumerated by TLC, loaded with real textX on one metamodel per worker process (earlier models dropped); I->S: the provider "
                 "calls of those loads plus seeded-random scenarios (<= 3 files, <= 8 references, <= 3 postponements, "
                 "dependencies) validated by TLC. Non-trivial: at least one postponement and a list of >= 2 "
@@ -44,6 +45,11 @@ def run(rep):
         "every rendered file holds at least one definition (a file without elements is returned by textX as a "
         "bare string, outside the carrier fragment)",
         "main model = file 1, imported files enter the repository in import order",
+        "every scenario is loaded twice: with the provider registered under '*.*' and, nothing registered, with the "
+        "provider attached to the reference attributes (MetaAttr.scope_provider, where lang.py puts the provider of "
+        "an RREL expression written in the grammar); the grammar-attached run is skipped when a file that imports "
+        "another has no reference (such imports are only loaded through a reference's provider)",
+        "builtins are objects of an earlier model loaded with the same metamodel, put into metamodel.builtins",
     ]
     devs = {f["id"]: f["deviation"] for f in common.open_findings(PID)}
     # (M)
